@@ -31,7 +31,7 @@ def regenerate(R):
         with open(GEN_FILE, "w") as fh:
             fh.write("import HeimdallModel.Model.Authn\n/-! GENERATED: extraction failed -/\n"
                      "namespace Heimdall.Authn.Gen\nopen Heimdall.Authn\n"
-                     + "".join(f"def {n} : FileFacts := ⟨[], 999⟩\n" for n in
+                     + "".join(f"def {n} : FileFacts := ⟨[[.k .noRule]], [[.k .argument]], [.k .noRule]⟩\n" for n in
                                ("anonymous", "unauthorized", "basic", "jwt", "introspection", "generic",
                                 "headerExtractor", "queryExtractor", "cookieExtractor", "bodyExtractor",
                                 "compositeExtractor"))
@@ -42,7 +42,10 @@ def regenerate(R):
         fh.write(p.stdout)
     sites = p.stdout.count("[.k ") + p.stdout.count("[.dyn")
     guard = [l.strip() for l in p.stdout.splitlines() if l.strip().startswith("{ onArgument")]
-    return {"error_constructor_expressions": sites, "files": 11, "composite_guard": guard[0] if guard else None,
+    others = sum(blk.split("loose :=")[0].count("[.k ") + blk.split("loose :=")[0].count("[.dyn")
+                 for blk in p.stdout.split("others := ")[1:])
+    return {"error_constructor_expressions": sites, "of_them_outside_the_entry_methods": others, "files": 11,
+            "composite_guard": guard[0] if guard else None,
             "argument_mentions": p.stdout.count(".k .argument")}, None
 
 
@@ -117,7 +120,7 @@ def rebuild(case, mechs=None, steps=None, reqs=None):
     steps = case["steps"] if steps is None else steps
     reqs = case["reqs"] if reqs is None else reqs
     used = {s["ref"] for s in steps}
-    return gen_authn.assemble([m for m in mechs if m["id"] in used], steps, reqs)
+    return gen_authn.assemble([m for m in mechs if m["id"] in used], steps, reqs, cache=bool(case.get("cache")))
 
 
 def shrink(exe, case, k, kind):
@@ -125,6 +128,11 @@ def shrink(exe, case, k, kind):
         return any(v[1] == kind for v in fails_on(exe, c))
     cur = rebuild(case, reqs=[case["reqs"][k]])
     if not bad(cur):
+        # the failure depends on what earlier requests left in the cache: keep the history that is needed
+        pre, last = case["reqs"][:k], case["reqs"][k]
+        if pre and bad(rebuild(case, reqs=pre + [last])):
+            keep = vlib.ddmin(pre, lambda ps: bad(rebuild(case, reqs=ps + [last])))
+            return rebuild(case, reqs=keep + [last]), len(keep)
         return rebuild(case), k
     steps = vlib.ddmin(cur["steps"], lambda ss: len(ss) >= 1 and bad(rebuild(cur, steps=ss)))
     cur = rebuild(cur, steps=steps)
@@ -193,6 +201,13 @@ def witness_cases():
     cases.append(gen_authn.assemble([intro, gen, anon],
                                     [{"ref": "a3", "fb": True}, {"ref": "a4", "fb": True}, {"ref": "a2"}], reqs2,
                                     "introspection and generic with fallback allowed by the rule"))
+    # a cached introspection response is validated against the assertions of the step at hand: the second and
+    # third request are answered from the cache, the first step rejects them at the cache-hit validation
+    strict = {"ref": "a3", "fb": True, "aud": ["other"], "key": "a3~aud-other"}
+    reqs3 = [rq([("X-Token", "Bearer opq-alice")]), rq([("X-Token", "Bearer opq-alice")]),
+             rq(query=[("token", "opq-alice")]), rq([("X-Token", "Bearer opq-inactive")])]
+    cases.append(gen_authn.assemble([intro, anon], [strict, {"ref": "a3"}, {"ref": "a2"}], reqs3,
+                                    "rule-level assertions, responses served from the cache", cache=True))
     return cases
 
 
